@@ -84,6 +84,62 @@ def ambient(ctx, py: PyRepo, reach):
     ctx.analysed['ambient-state uses'] = n
 
 
+def stateful_classes(py: PyRepo) -> dict:
+    """repo classes (with subclasses) whose methods, other than the constructor, write to attributes of self"""
+    own = {}
+    for mname, mi in py.modules.items():
+        for c in mi.classes.values():
+            muts = set()
+            for fname, f in c.methods.items():
+                if fname in ('__init__', '__post_init__'):
+                    continue
+                for n in ast.walk(f):
+                    tg = n.targets if isinstance(n, ast.Assign) else ([n.target] if isinstance(n, (ast.AugAssign, ast.AnnAssign)) else [])
+                    for t in tg:
+                        base = t.value if isinstance(t, ast.Subscript) else t
+                        if isinstance(base, ast.Attribute) and isinstance(base.value, ast.Name) and base.value.id == 'self':
+                            muts.add(base.attr)
+                    if isinstance(n, ast.Call) and isinstance(n.func, ast.Attribute) and n.func.attr in (
+                            'append', 'add', 'update', 'extend', 'pop', 'clear', 'insert', 'remove', 'setdefault', 'discard') \
+                            and isinstance(n.func.value, ast.Attribute) and isinstance(n.func.value.value, ast.Name) \
+                            and n.func.value.value.id == 'self':
+                        muts.add(n.func.value.attr)
+            if muts:
+                own[(mname, c.name)] = sorted(muts)
+    out = {}
+    for mname, mi in py.modules.items():
+        for c in mi.classes.values():
+            for anc in py.mro(c):
+                if (anc.module, anc.name) in own:
+                    out.setdefault(c.name, own[(anc.module, anc.name)])
+                    break
+    return out
+
+
+def module_level_stateful_instances(py: PyRepo, only_modules=None):
+    st = stateful_classes(py)
+    out = []
+    for mname, mi in py.modules.items():
+        if only_modules is not None and mname not in only_modules:
+            continue
+        for top in mi.tree.body:
+            if isinstance(top, (ast.FunctionDef, ast.AsyncFunctionDef, ast.Import, ast.ImportFrom)):
+                continue
+            if isinstance(top, ast.If) and '__name__' in ast.unparse(top.test):
+                continue                           # script entry point: runs once per process by construction
+            stack = [top]
+            while stack:
+                n = stack.pop()
+                if isinstance(n, (ast.FunctionDef, ast.AsyncFunctionDef, ast.Lambda)):
+                    # default arguments are evaluated at definition time
+                    stack.extend(n.args.defaults + [d for d in n.args.kw_defaults if d is not None])
+                    continue
+                if isinstance(n, ast.Call) and isinstance(n.func, ast.Name) and n.func.id in st:
+                    out.append((mname, n, n.func.id, st[n.func.id]))
+                stack.extend(ast.iter_child_nodes(n))
+    return out
+
+
 def cross_run_state(ctx, py: PyRepo):
     """mutable default arguments; module-level mutable objects written from functions; class-level mutable attributes written through instances"""
     n = 0
@@ -151,6 +207,12 @@ def cross_run_state(ctx, py: PyRepo):
                             ctx.ob('cross-run-state', f'{mname}.{c.name}.{attr}', False,
                                    f'class attribute {c.name}.{attr} is a mutable object shared by all instances and is mutated through them',
                                    py.where(mname, node))
+    # module-level (import-time) instances of classes whose methods mutate their own attributes: one object shared by every run
+    for mname, node, cname, attrs in module_level_stateful_instances(py):
+        n += 1
+        ctx.ob('cross-run-state', f'{mname}:<module>:{cname}', False,
+               f'{mname} creates a {cname} at import time; {cname} mutates its own state ({", ".join(attrs[:3])}) while working, so what one run '
+               f'records is still there in the next run of the same process', py.where(mname, node))
     # functools.cache: results must not depend on mutable state (arguments only)
     for mname, qn, fn, ci in py.all_functions():
         if any(ast.unparse(d).split('(')[0].split('.')[-1] in ('cache', 'lru_cache') for d in fn.decorator_list):
